@@ -933,7 +933,7 @@ func (obj *Package) DefLambda(name string, lam *Lambda, fc func(args List) Objec
 	} else {
 		obj.lambdas[name] = lam
 	}
-	if fi := obj.funcs[name]; fi != nil {
+	if fi := obj.funcs[name]; fi != nil && (fi.Pkg == obj || fi.Pkg == nil) {
 		fi.Doc = lam.Doc
 		fi.Create = fc
 		fi.Pkg = obj
@@ -947,9 +947,16 @@ func (obj *Package) DefLambda(name string, lam *Lambda, fc func(args List) Objec
 			Kind:   kind,
 		}
 		obj.funcs[name] = &fi
-		if vv := obj.vars[name]; vv != nil && Unbound == vv.Val && vv.Export {
+		if vv := obj.vars[name]; vv != nil && Unbound == vv.Val && vv.Export && vv.Pkg == obj {
 			fi.Export = true
 			delete(obj.vars, name)
+			for _, u := range obj.Users {
+				u.mu.Lock()
+				if xf := u.funcs[name]; xf == nil {
+					u.funcs[name] = &fi
+				}
+				u.mu.Unlock()
+			}
 		}
 	}
 	obj.mu.Unlock()
